@@ -777,8 +777,30 @@ pub fn m_calls(
     keep: &dyn Fn(CallStage) -> bool,
     out: &mut Vec<Violation>,
 ) {
-    let acts: Vec<ExpCall> = actual_calls(&run.events).into_iter().filter(|c| keep(c.stage)).collect();
-    let exps: Vec<&ExpCall> = exp.calls.iter().filter(|c| keep(c.stage)).collect();
+    m_calls_opt(rule, exp, run, subset_only, false, keep, out)
+}
+
+/// `ignore_args`: compare which function is called, at which stage, with which key / accepted
+/// list / location, but not the value argument (used when the payload has duplicate keys: which
+/// occurrence ends up in a value is not specified)
+pub fn m_calls_opt(
+    rule: &'static str,
+    exp: &Expect,
+    run: &Run,
+    subset_only: bool,
+    ignore_args: bool,
+    keep: &dyn Fn(CallStage) -> bool,
+    out: &mut Vec<Violation>,
+) {
+    let strip = |mut c: ExpCall| -> ExpCall {
+        if ignore_args {
+            c.arg = None;
+        }
+        c
+    };
+    let acts: Vec<ExpCall> = actual_calls(&run.events).into_iter().filter(|c| keep(c.stage)).map(strip).collect();
+    let exps_owned: Vec<ExpCall> = exp.calls.iter().filter(|c| keep(c.stage)).cloned().map(strip).collect();
+    let exps: Vec<&ExpCall> = exps_owned.iter().collect();
     let mut used = vec![false; exps.len()];
     let mut extra: Vec<&ExpCall> = vec![];
     for a in &acts {
